@@ -23,6 +23,18 @@ theorem countLoop_fold {σ ρ : Type} (body : Int → σ → Ctl ρ × σ) (f : 
     countLoop lo hi s body = (.next, (List.replicate (hi - lo).toNat ()).foldl (fun s _ => f s) s) :=
   rangeLoopFrom_fold _ (fun s _ => f s) (fun _ _ _ => h _ _) 0 _ s
 
+theorem rangeLoopFrom_cons_next {α σ ρ : Type} {body : Nat → α → σ → Ctl ρ × σ} {i : Nat} {x : α} {xs : List α} {s s' : σ}
+    (h : body i x s = (.next, s')) : rangeLoopFrom body i (x :: xs) s = rangeLoopFrom body (i + 1) xs s' := by
+  simp only [rangeLoopFrom, h]
+
+theorem rangeLoopFrom_cons_ret {α σ ρ : Type} {body : Nat → α → σ → Ctl ρ × σ} {i : Nat} {x : α} {xs : List α} {s s' : σ} {r : ρ}
+    (h : body i x s = (.ret r, s')) : rangeLoopFrom body i (x :: xs) s = (.ret r, s') := by
+  simp only [rangeLoopFrom, h]
+
+theorem rangeLoopFrom_cons_brk {α σ ρ : Type} {body : Nat → α → σ → Ctl ρ × σ} {i : Nat} {x : α} {xs : List α} {s s' : σ}
+    (h : body i x s = (.brk, s')) : rangeLoopFrom body i (x :: xs) s = (.next, s') := by
+  simp only [rangeLoopFrom, h]
+
 /-- reasoning rule for a loop whose body may return: a relation between the remaining elements, the carried
     state and the loop's result that holds for the empty list and is preserved backwards by every iteration -/
 theorem rangeLoopFrom_spec {α σ ρ : Type} (body : Nat → α → σ → Ctl ρ × σ) (R : List α → σ → Ctl ρ × σ → Prop)
